@@ -457,7 +457,7 @@ Proof.
   set (X := if timers_reset_stream src then upreq_reset_stream else ret).
   assert (Hx : forall s0, cleaned (fst (X s0)) = cleaned s0 /\ forall o, In o (snd (X s0)) -> exists k, o = OUpReset k).
   { unfold X. destruct (timers_reset_stream src); [apply Hr|]. intros s0. cbn. split; auto. tauto. }
-  destruct e as [k st d t|k r|k| |r|code|]; cbn [env_step]; fold X.
+  destruct e as [k st d t|k r|k| |r|code| |g|g]; cbn [env_step]; fold X.
   - destruct ((k =? cur s)%nat && up_sender s && up_alive s && negb (c_oneway c)); [|cbn; split; auto; tauto].
     cbn zeta. match goal with |- context [process_done_b ?x] => set (s1 := x) end.
     assert (Hc1 : cleaned s1 = cleaned s) by reflexivity.
@@ -492,6 +492,24 @@ Proof.
     destruct (cleaned (s <| reuse := false |>)) eqn:E; [cbn; split; auto; tauto|].
     destruct (received (s <| reuse := false |>)); cbn; split; auto; tauto.
   - destruct (sleeping s); cbn; split; auto; tauto.
+  - unfold stale_try. fold X. cbn zeta.
+    destruct (cleaned (s <| reuse := false |>)) eqn:E1; [cbn; split; auto; tauto|].
+    destruct (if try_captures_id src then negb g else false); [cbn; split; auto; tauto|].
+    destruct (received (s <| reuse := false |>)); [cbn; split; auto; tauto|].
+    destruct (resp_started (s <| reuse := false |> <| received := true |>)); [cbn; split; auto; tauto|].
+    unfold aseq. set (s2 := s <| reuse := false |> <| received := true |>).
+    destruct (Hx s2) as [H1 H2]. destruct (X s2) as [s3 o3]. cbn [fst snd] in *.
+    destruct (Hu RsPerTryTimeout s3) as [H3 H4]. destruct (on_up_reset RsPerTryTimeout s3) as [s4 o4]. cbn [fst snd] in *.
+    subst o4. rewrite app_nil_r. split; auto. rewrite H3, H1. reflexivity.
+  - unfold stale_global. fold X. cbn zeta.
+    destruct (cleaned (s <| reuse := false |>)) eqn:E1; [cbn; split; auto; tauto|].
+    destruct (if global_captures_id src then negb g else false); [cbn; split; auto; tauto|].
+    destruct (received (s <| reuse := false |>)); [cbn; split; auto; tauto|].
+    set (s2 := s <| reuse := false |> <| received := true |>).
+    destruct (has_upreq s2); [|cbn; split; auto; tauto].
+    unfold aseq. destruct (Hx s2) as [H1 H2]. destruct (X s2) as [s3 o3]. cbn [fst snd] in *.
+    destruct (Hu RsGlobalTimeout s3) as [H3 H4]. destruct (on_up_reset RsGlobalTimeout s3) as [s4 o4]. cbn [fst snd] in *.
+    subst o4. rewrite app_nil_r. split; auto. rewrite H3, H1. reflexivity.
 Qed.
 
 Lemma ok_env e s : R s (snd (env_step src c e s)) (fst (env_step src c e s)).
@@ -651,6 +669,18 @@ Proof.
     - unfold res_dec. destruct (res_off src c); cbn; auto. }
   destruct (clean_up src c s) as [s1 o1]. cbn [fst] in Hc. destruct Hc as [Hc1 [Hc2 Hc3]]. unfold ite. rewrite Hc1. cbn.
   repeat split; auto. eexists; eexists; reflexivity.
+Qed.
+
+(* ---------- timer functions of an earlier owner of the pooled object ---------- *)
+(* a timer function whose captured proxy ID differs from the object's current ID does nothing to the request that holds the
+   object now - every configuration, every state (it only clears reuseBuffer, which it does before any check: the current owner
+   will then not give its objects back) *)
+Theorem stale_timer_noop : forall src c s,
+  (try_captures_id src = true -> env_step src c (EvStaleTry false) s = (s <| reuse := false |>, [])) /\
+  (global_captures_id src = true -> env_step src c (EvStaleGlobal false) s = (s <| reuse := false |>, [])).
+Proof.
+  intros src c s. split; intros Hc; cbn [env_step]; [unfold stale_try|unfold stale_global]; rewrite Hc; cbn zeta; cbn [negb];
+    destruct (cleaned (s <| reuse := false |>)); reflexivity.
 Qed.
 
 (* ---------- the pooled filter-chain object ---------- *)
